@@ -14,7 +14,10 @@ import (
 	"flag"
 	"fmt"
 	"os"
+	"regexp"
 	"sort"
+	"strconv"
+	"strings"
 	"time"
 
 	h "github.com/Oudwins/zog/zz_verif/harness"
@@ -76,6 +79,75 @@ func main() {
 	}
 }
 
+// ---------------------------------------------------------------------------
+// Race-detector reports (the -race build only). GORACE=log_path=<p> makes the
+// runtime append reports to <p>.<pid>; a world during which that file grew
+// raced. Reports whose stacks contain no library frame are harness bugs.
+
+func raceLogPath() string {
+	for _, kv := range strings.Fields(os.Getenv("GORACE")) {
+		if strings.HasPrefix(kv, "log_path=") {
+			return strings.TrimPrefix(kv, "log_path=") + "." + strconv.Itoa(os.Getpid())
+		}
+	}
+	return ""
+}
+
+func fileSize(p string) int64 {
+	if p == "" {
+		return 0
+	}
+	st, err := os.Stat(p)
+	if err != nil {
+		return 0
+	}
+	return st.Size()
+}
+
+var frameRx = regexp.MustCompile(`(?m)^  (github\.com/Oudwins/zog[^\s(]*(?:\([^)]*\))?[^\s(]*)\(`)
+
+// raceVerdict turns the new part of the race log into a violation (or a harness error).
+func raceVerdict(logPath string, from int64) (*h.Violation, string) {
+	b, err := os.ReadFile(logPath)
+	if err != nil || int64(len(b)) <= from {
+		return nil, ""
+	}
+	text := string(b[from:])
+	reports := strings.Split(text, "WARNING: DATA RACE")
+	for _, rep := range reports[1:] {
+		// the two access stacks come first; goroutine creation stacks follow
+		head := rep
+		if i := strings.Index(rep, "Goroutine "); i >= 0 {
+			head = rep[:i]
+		}
+		var lib []string
+		for _, m := range frameRx.FindAllStringSubmatch(head, -1) {
+			f := m[1]
+			if strings.Contains(f, "/zz_verif/") {
+				continue
+			}
+			f = strings.TrimPrefix(f, "github.com/Oudwins/zog/")
+			f = strings.TrimPrefix(f, "github.com/Oudwins/")
+			lib = append(lib, f)
+		}
+		if len(lib) == 0 {
+			return nil, "race report without a library frame (harness bookkeeping raced):\n" + rep
+		}
+		top := lib[0]
+		other := lib[len(lib)-1]
+		for _, f := range lib {
+			if f != top {
+				other = f
+				break
+			}
+		}
+		first := strings.SplitN(strings.TrimSpace(rep), "\n", 2)[0]
+		return &h.Violation{Prop: "C08", Class: "C08/data-race " + top + " vs " + other,
+			Detail: first + " -- " + strings.Join(lib, " <- ")}, ""
+	}
+	return nil, ""
+}
+
 func worldHash(w *h.World) uint64 {
 	b, _ := json.Marshal(struct {
 		S []*h.Node
@@ -128,7 +200,20 @@ func cmdRun(args []string) {
 			continue // an index beyond the enumerated fault space of its request
 		}
 		w.Seed, w.Idx, w.Prop = ws, idx, *prop
+		rlog := raceLogPath()
+		rsize := fileSize(rlog)
 		ro := h.RunWorld(sc, w, false, false)
+		if rlog != "" && ro.Harness == "" {
+			if v, herr := raceVerdict(rlog, rsize); herr != "" {
+				ro.Harness = herr
+			} else if v != nil && ro.V == nil {
+				ro.V = v
+			}
+			if w.Params == nil {
+				w.Params = map[string]int{}
+			}
+			w.Params["race"] = 1
+		}
 		if ro.Harness != "" {
 			o.Harness = fmt.Sprintf("world seed=%d idx=%d: %s", *seed, idx, ro.Harness)
 			h.Finalize(w, ro)
@@ -159,7 +244,7 @@ func cmdRun(args []string) {
 			o.Samples = append(o.Samples, w)
 		}
 		// determinism self-check on a sample of worlds: same decisions => same event log
-		if k%50 == 7 {
+		if k%50 == 7 && rlog == "" {
 			w2 := *w
 			r2 := h.RunWorld(sc, &w2, true, false)
 			o.DetChecked++
@@ -222,7 +307,16 @@ func cmdReplay(args []string) {
 		die(2, "unknown property %q", w.Prop)
 	}
 	wantClass, wantDigest := w.Class, w.Digest
+	rlog := raceLogPath()
+	rsize := fileSize(rlog)
 	ro := h.RunWorld(sc, w, true, *trace)
+	if rlog != "" && ro.Harness == "" {
+		if v, herr := raceVerdict(rlog, rsize); herr != "" {
+			ro.Harness = herr
+		} else if v != nil && ro.V == nil {
+			ro.V = v
+		}
+	}
 	if ro.Harness != "" {
 		die(2, "%s", ro.Harness)
 	}
